@@ -84,6 +84,16 @@ func (c *Controller) VerifTryLock() bool {
 // built (membership untouched, index maps kept consistent) into address order so that a replayed path behaves the
 // same way every time.  The round-robin cursor is left as it is.
 // VerifCanonicalOrderIfFree canonicalises under the controller lock; false when the lock is taken.
+// VerifViewIfFree takes the view under the controller lock if the lock is free (for harnesses whose controller
+// goroutines run free: the maps must not be read while one of them writes).
+func (c *Controller) VerifViewIfFree() (VerifView, bool) {
+	if !c.TryLock() {
+		return VerifView{}, false
+	}
+	defer c.Unlock()
+	return c.VerifView(), true
+}
+
 func (c *Controller) VerifCanonicalOrderIfFree() bool {
 	if !c.TryLock() {
 		return false
